@@ -69,6 +69,7 @@ def build(df, f, aux, vs):
     mapping = {}
     if f["hasmap"]:
         mapping = {labels[c]: (dims[f["map"][c] - 1] if f["map"][c] else None) for c in range(nv)}
+        mapping = fldmod.scramble(mapping, sum(m["n"]) + nv + len(str(f["map"])))
     field = df.Field(mesh, nvdim=nv, value=arr, vdims=labels, valid=valid, vdim_mapping=mapping)
     afield = None
     if aux["kind"] != "none":
